@@ -24,6 +24,8 @@ pub enum COp {
     PushMany { r: u8, s: Vec<u8>, n: u16 },
     /// push `n` distinct strings `prefix ++ be16(i)` (crosses the summary's compaction)
     PushDistinct { r: u8, prefix: Vec<u8>, n: u16 },
+    /// push one 2-byte string for every first byte in `from..=255` (leaves few or no free tags)
+    PushAllFirstBytes { r: u8, from: u8 },
     /// region `dst` := merge_regions(srcs)
     Merge { dst: u8, srcs: Vec<u8> },
     Clear { r: u8 },
@@ -244,6 +246,12 @@ fn run_case_skipping(case: &CodecCase, skip: &BTreeSet<usize>, st: &mut CStats) 
                         st.ev.hit(">1024-distinct-strings-in-a-source");
                     }
                 }
+                COp::PushAllFirstBytes { r, from } => {
+                    for b in *from..=255u8 {
+                        push_one(&mut w, *r as usize % NREG, &[b, b'x'], st)?;
+                    }
+                    st.ev.hit("many-first-bytes-observed");
+                }
                 COp::Merge { dst, srcs } => {
                     let di = *dst as usize % NREG;
                     let srcs: Vec<u8> = srcs.iter().map(|s| (*s as usize % NREG) as u8).collect();
@@ -333,6 +341,7 @@ fn brief(op: &COp) -> String {
         COp::Push { r, s } => format!("Push(r{r}, {} bytes)", s.len()),
         COp::PushMany { r, s, n } => format!("PushMany(r{r}, {} bytes x{n})", s.len()),
         COp::PushDistinct { r, n, .. } => format!("PushDistinct(r{r}, {n})"),
+        COp::PushAllFirstBytes { r, from } => format!("PushAllFirstBytes(r{r}, {from}..)"),
         COp::Merge { dst, srcs } => format!("Merge(r{dst} <- {:?})", srcs),
         COp::Clear { r } => format!("Clear(r{r})"),
     }
@@ -386,13 +395,15 @@ pub fn decode_case(t: &mut Tape, allow_lossy: bool) -> CodecCase {
     let mut big = 0;
     while !t.exhausted() && ops.len() < 60 {
         let r = t.below(NREG) as u8;
-        let op = match t.weighted(&[50, 14, 2, 14, 4]) {
+        let op = match t.weighted(&[50, 14, 2, 14, 4, 1]) {
             0 => COp::Push { r, s: gen_string(t, &mut pool) },
             1 => COp::PushMany { r, s: gen_string(t, &mut pool), n: 2 + t.below(30) as u16 },
             2 => {
                 if allow_lossy && big < 2 {
                     big += 1;
-                    COp::PushDistinct { r, prefix: vec![b'k', t.below(3) as u8], n: 1030 + t.below(400) as u16 }
+                    // around the summary's capacity (1024 entries) and its half (512 kept)
+                    let n = [511u16, 512, 513, 1023, 1024, 1025, 1030, 1200, 1430][t.below(9)];
+                    COp::PushDistinct { r, prefix: vec![b'k', t.below(3) as u8], n }
                 } else {
                     COp::PushDistinct { r, prefix: vec![b'k'], n: 2 + t.below(20) as u16 }
                 }
@@ -401,7 +412,8 @@ pub fn decode_case(t: &mut Tape, allow_lossy: bool) -> CodecCase {
                 let n = t.below(4);
                 COp::Merge { dst: r, srcs: (0..n).map(|_| t.below(NREG) as u8).collect() }
             }
-            _ => COp::Clear { r },
+            4 => COp::Clear { r },
+            _ => COp::PushAllFirstBytes { r, from: [0u8, 1, 2, 128, 250][t.below(5)] },
         };
         ops.push(op);
     }
@@ -442,6 +454,11 @@ fn simplify(op: &COp) -> Vec<COp> {
             if !srcs.is_empty() {
                 out.push(COp::Merge { dst: *dst, srcs: srcs[..srcs.len() - 1].to_vec() });
                 out.push(COp::Merge { dst: *dst, srcs: srcs[1..].to_vec() });
+            }
+        }
+        COp::PushAllFirstBytes { r, from } => {
+            if *from < 255 {
+                out.push(COp::PushAllFirstBytes { r: *r, from: from + (255 - from) / 2 + 1 });
             }
         }
         COp::Clear { .. } => {}
